@@ -112,6 +112,37 @@ def work(item):
     return acc
 
 
+def long_work(rule_name):
+    """beyond length L: for every candidate c, the rule's other names in declared order, each repeated r times
+    (r = 1, 2, 3, 8, 20), and the same with c itself already present r times - 13, 30, 100+ existing children"""
+    ra = ruleinfo.automata(rule_name)
+    acc = core.Acc()
+    if not ra.names or len(ra.flat) != len(set(ra.flat)):
+        return acc
+    core.reset_store()
+    parent, direct = ruleinfo.parent_for(rule_name, node_id="P")
+    robj = mrule.Rule(rule_name)
+    child_nodes = {a: Node(a, id="c_" + a) for a in ra.alphabet}
+    rank = {}
+    for i, a in enumerate(ra.flat):
+        rank.setdefault(a, i)
+    order = sorted(ra.names, key=lambda a: rank[a])
+    n = 0
+    for c in order:
+        for r in (1, 2, 3, 8, 20):
+            for with_c in (False, True):
+                s = tuple(a for a in order for _ in range(r) if with_c or a != c)
+                if len(s) < 9:
+                    continue
+                n += 1
+                probs, label = check_one(rule_name, ra, robj, parent, child_nodes, s, c, rank)
+                acc.outcome(label)
+                if probs:
+                    acc.add_problems(probs)
+    acc.count("long_sequences", n)
+    return acc
+
+
 def allowed_work(rule_name):
     """is_allowed_child(x) <=> x labels a transition on a path from the start to an accepting state."""
     ra = ruleinfo.automata(rule_name)
@@ -252,6 +283,7 @@ def explore(tier):
     accs = core.pmap(work, items)
     accs += core.pmap(allowed_work, sorted(info) + outside)
     accs += core.pmap(refusal_work, sorted(ruleinfo.table()))
+    accs += core.pmap(long_work, sorted(info))
     acc = core.merge_all(accs)
     ev = acc.counts.get("evaluations", 0)
     expected = sum(v["evaluations"] for v in info.values())
@@ -273,6 +305,7 @@ def explore(tier):
                 "place every known element name it does not list and four foreign spellings: each must be refused with "
                 "ChildNotAllowedError.",
         "refusals_checked": acc.counts.get("refusals", 0),
+        "long_sequences_checked": acc.counts.get("long_sequences", 0),
         "rules_checked": len(info),
         "rules_outside_claim_duplicate_child_names": outside,
         "per_rule": info,
